@@ -111,8 +111,8 @@ pub fn c03(eps: &[(f32, EnergyPerformance)]) -> Option<String> {
         }
     }
     if !r3eq(e0.balance.we.b, e0.balance.we.a) { return Some("k=0: step B != step A".into()); }
-    // every figure other than step B, the k_exp-weighted exported term and the renewable shares is the same at every k_exp
-    let fixed = |e: &EnergyPerformance| -> leaf::Leaves { leaf::results(e, false).into_iter().filter(|(p, _)| !leaf::k_dependent(p)).collect() };
+    // every final-energy flow and every part of the step A result, whole building / per m2 / per carrier / per step, is the same at every k_exp
+    let fixed = |e: &EnergyPerformance| -> leaf::Leaves { leaf::results(e, false).into_iter().filter(|(p, _)| leaf::k_independent(p)).collect() };
     let l0 = fixed(e0);
     for (k, e) in eps {
         if let Some(d) = leaf::diff(&l0, &fixed(e), 1.0) { return Some(format!("k={}: a figure that does not involve k_exp changes with it: {}", k, d)); }
@@ -180,7 +180,8 @@ pub fn c04(ep: &EnergyPerformance) -> Option<String> {
     for (mname, a, bm) in [("used.epus_by_cr", &m.used.epus_by_cr, &b.used.epus_by_cr), ("prod.by_cr", &m.prod.by_cr, &b.prod.by_cr), ("del.grid_by_cr", &m.del.grid_by_cr, &b.del.grid_by_cr)] { for (s, v) in bm { if a.get(s).map(|w| eq(*w, v * k)) != Some(true) { return Some(format!("per-m2 {}[{}] wrong or missing", mname, s)); } } }
     for (mname, a, bm) in [("prod.by_src", &m.prod.by_src, &b.prod.by_src), ("prod.epus_by_src", &m.prod.epus_by_src, &b.prod.epus_by_src)] { for (s, v) in bm { if a.get(s).map(|w| eq(*w, v * k)) != Some(true) { return Some(format!("per-m2 {}[{}] wrong or missing", mname, s)); } } }
     for (s, v) in &b.we.b_by_srv { if let Some(w) = m.we.b_by_srv.get(s) { if !(eq(w.nren, v.nren * k) && eq(w.ren, v.ren * k) && eq(w.co2, v.co2 * k)) { return Some(format!("per-m2 step B of service {} wrong", s)); } } else { return Some("per-m2 by-service entry missing".into()); } }
-    if let Some(d) = leaf::diff(&leaf::of(b), &leaf::of(m), k as f64) { return Some(format!("per-m2 figure is not the absolute figure divided by the area {}: {}", ep.arearef, d)); }
+    let area_leaves = |x: &Balance| -> leaf::Leaves { leaf::of(x).into_iter().filter(|(p, _)| leaf::per_area(p)).collect() };
+    if let Some(d) = leaf::diff(&area_leaves(b), &area_leaves(m), k as f64) { return Some(format!("per-m2 figure is not the absolute figure divided by the area {}: {}", ep.arearef, d)); }
     for (s, v) in &b.we.a_by_srv { if let Some(w) = m.we.a_by_srv.get(s) { if !(eq(w.nren, v.nren * k) && eq(w.ren, v.ren * k) && eq(w.co2, v.co2 * k)) { return Some(format!("per-m2 step A of service {} = {} wrong (absolute {} / area {})", s, w, v, ep.arearef)); } } else { return Some("per-m2 by-service entry missing".into()); } }
     None
 }
